@@ -611,6 +611,9 @@ impl HybridCompressor {
 
         Ok(Self { compressors })
     }
+
+    /// Frame tag of data that no component compressor could shrink
+    const STORED_RAW: u8 = 0xFF;
 }
 
 impl Compressor for HybridCompressor {
@@ -619,8 +622,10 @@ impl Compressor for HybridCompressor {
             return Ok(Vec::new());
         }
 
+        // Until a component shrinks the data it is stored as it is, under a tag of its own
+        // (tag 0 is the Huffman component and must not stand for "stored" as well)
         let mut best_result = data.to_vec();
-        let mut best_algorithm = 0u8;
+        let mut best_algorithm = Self::STORED_RAW;
 
         // Try each compressor and pick the best result
         for (i, compressor) in self.compressors.iter().enumerate() {
@@ -645,6 +650,10 @@ impl Compressor for HybridCompressor {
 
         let algorithm_id = data[0] as usize;
         let compressed_data = &data[1..];
+
+        if data[0] == Self::STORED_RAW {
+            return Ok(compressed_data.to_vec());
+        }
 
         if algorithm_id >= self.compressors.len() {
             return Err(ZiporaError::invalid_data(
